@@ -32,6 +32,22 @@ def _orient_tol(want):
     st = math.hypot(float(want[2][0]), float(want[2][1]))
     return TOL + (2.0 * st + 1e-12 if st <= 1.01 * GIMBAL_EPS else 0.0)
 TIE_MARGIN = 1e-6   # distance of a pre-rounding coordinate from k+1/2 below which the rounding direction is not compared
+EPS32 = 2.0 ** -23  # float32 machine epsilon
+RECEIVERS = ["Motl", "EmMotl", "RelionMotl", "StopgapMotl", "DynamoMotl", "ModMotl"]   # the method is inherited by every list class; `Cls(df)` for each
+
+
+def _pos_extra(c):
+    """H4 — extra position tolerance for an offset handed over as a FLOAT32 array (the docstring types xyz_shift as numpy.ndarray; the generated
+    values are float32-representable, so the argument itself is exact). numpy then computes `rho = sqrt(s0**2 + s1**2)` and `the = arctan2(s1, s0)`
+    IN FLOAT32 (the precision of the argument it was given): rho carries <= 2.5 roundings of 2^-24 (two squares, a sum, a root: <= 1.25 eps32 rho),
+    `the` one float32 rounding of a value in (-pi, pi] plus <= 1 ulp of the function (<= 1.5 ulp32(pi) = 3.6e-7 = 3 eps32), so the in-plane offset
+    rho*(cos, sin)(the + phi_k) — and with it the complete position, the parent rotation being an isometry — is off by at most
+    (1.25 + 3) eps32 rho < 5 eps32 rho (measured over 300 random offsets x n: 2.1 eps32 rho at worst; probed every run). The z component and the
+    orientation do not pass through float32 arithmetic. 0 for every other way of passing the offset."""
+    if c.get("sform") != "f32array":
+        return 0.0
+    s = [b2f(b) for b in c["s"]]
+    return 5.0 * EPS32 * math.hypot(s[0], s[1])
 
 FIELDS = ["score", "geom1", "geom2", "subtomo_id", "tomo_id", "object_id", "subtomo_mean", "x", "y", "z",
           "shift_x", "shift_y", "shift_z", "geom3", "geom4", "geom5", "phi", "psi", "theta", "class"]
@@ -49,6 +65,8 @@ RULE = ("particle lists of N in 1..100 particles (subtomo_ids unique in random r
         "(reversed, shuffled, offset, with gaps, duplicated, all equal, negative — `Motl(df)` keeps them), offsets as int list / int tuple / int64 array, decimal values with 1-3 "
         "decimals (angles, coordinates, shifts, offsets), parents with theta next to 0/180 on both sides of scipy's gimbal threshold (|theta| <= 1e-7 rad); a small share of numeric "
         "arguments OUTSIDE the statement (n + fraction, 0, negative, NaN, inf) judged against the Lean model of int() only (kind corr); "
+        "30% of the cases call the inherited method on an instance of a subclass (EmMotl / RelionMotl / StopgapMotl / DynamoMotl / ModMotl built from the same frame); "
+        "offsets also as float32 arrays (float32-representable values; position tolerance + 5 eps32 rho because numpy takes sqrt/arctan2 in float32); "
         "non-trivial = N>=2 and n>=2 and s off the axis and at least one parent with theta not a multiple of 180; distinct = distinct (calls, rows) content")
 ASSUMPTIONS = [
     "scipy Rotation.from_euler('zxz', degrees=True) is the matrix Rz(psi)Rx(theta)Rz(phi); `*` is matrix product; apply is matrix-vector product "
@@ -60,6 +78,8 @@ ASSUMPTIONS = [
     "executes that very form (`expandP`); that it equals the rotation Rz(phi_k)s is PROVED (`centerShift_eq`, over R: `real_expandP_eq`), no longer assumed",
     "Python int() on a finite float/int = truncation toward zero of its exact value (Lean `truncInt`), raises on NaN/inf (compared on the numeric forms, incl. n+fraction and "
     "refused values outside the statement)",
+    "numpy computes sqrt / arctan2 of a float32 offset in float32 (the precision of the argument): the in-plane offset is then within 5 eps32 rho of the exact one "
+    "(derivation in _pos_extra; probed every run) — the tolerance follows the argument's precision, the statement is about real numbers",
     "pandas: `Motl(df)` keeps dtypes and row labels of the frame it is given; `frame[[cols]] = ndarray` replaces whole columns (any previous dtype), positional",
     "decimal.Decimal(x).to_integral_value(ROUND_HALF_UP) on a float x = rounding of the EXACT binary value half away from zero = Lean ratRound on that value (probed every "
     "run incl. ties and 0.49999999999999994; compared exactly on every case with zero offset; coordinates whose pre-rounding value lies within 1e-6 of k+1/2 after a "
@@ -928,6 +948,8 @@ def _dress(rng, case, tier):
     """H3: a share of the cases carries non-default row labels"""
     if rng.random() < 0.30:
         case["labelkind"], case["labels"] = _labels(rng, len(case["rows"]))
+    if rng.random() < 0.30:     # the method is inherited: call it on an instance of a subclass (an override there must show)
+        case["receiver"] = rng.choice(RECEIVERS[1:])
     return case
 
 
@@ -938,6 +960,9 @@ def _call(rng, n, form, azimuth=False, sform=None):
         sform = {"list": "intlist", "tuple": "inttuple"}[sform]      # [10, 0, 0] as the docstring example / the pinned tests write it
     elif all(v == int(v) for v in s) and sform == "ndarray" and rng.random() < 0.5:
         sform = "intarray"                                             # np.array([10, 0, 0]): an int64 array
+    elif sform == "ndarray" and rng.random() < 0.22:
+        sform = "f32array"                                             # a float32 array (data read from an MRC / EM file, a GPU pipeline)
+        s = [float(np.float32(v)) for v in s]                          # the values ARE float32 numbers: the argument is exact
     return dict(sym=dict(form=form, n=n), s=[f2b(v) for v in s], skind=skind, sform=sform)
 
 
@@ -973,7 +998,7 @@ def _session(rng, n, maxcells, forms):
         m = rng.choice([n, rng.randint(1, 12)])
         calls.insert(rng.randint(1, 2), _call(rng, m, rng.choice(forms), sform=rng.choice(["ndarray", "list"])))
     for c in calls:
-        if c["sform"] == "intarray":      # the session's calls share ONE float ndarray
+        if c["sform"] in ("intarray", "f32array"):      # the session's calls share ONE float64 ndarray
             c["sform"] = "ndarray"
     return dict(rows=rows, idkind=idkind, calls=calls, **extra)
 
@@ -1033,7 +1058,7 @@ def _calls(case):
 
 def key(case):
     import hashlib, json
-    return hashlib.sha1(json.dumps([[(c["sym"], c["s"], c.get("sform")) for c in _calls(case)], case["rows"], case.get("intcols"), case.get("labels")],
+    return hashlib.sha1(json.dumps([[(c["sym"], c["s"], c.get("sform")) for c in _calls(case)], case["rows"], case.get("intcols"), case.get("labels"), case.get("receiver")],
                                    sort_keys=True).encode()).hexdigest()
 
 
@@ -1048,9 +1073,11 @@ def _shrink(case):
     rows = case["rows"]
     calls = _calls(case)
     base = dict(rows=rows, idkind=case.get("idkind", "?"), calls=calls)
-    for k in ("intcols", "intkind", "labels", "labelkind"):
+    for k in ("intcols", "intkind", "labels", "labelkind", "receiver"):
         if case.get(k) is not None:
             base[k] = case[k]
+    if base.get("receiver", "Motl") != "Motl":
+        yield {k: v for k, v in base.items() if k != "receiver"}
     labels = base.get("labels")
 
     def sub(idx):
@@ -1189,7 +1216,10 @@ def run_impl(case):
             df[c] = df[c].astype("int64")
         if case.get("labels") is not None:            # `Motl(df)` keeps the caller's row labels
             df.index = list(case["labels"])
-        return cryomotl.Motl(df)
+        cls = case.get("receiver", "Motl")
+        if cls not in RECEIVERS:
+            raise ValueError(f"unknown receiver class {cls!r}")
+        return getattr(cryomotl, cls)(df)           # the subclasses copy the frame and reset its row labels (check_df_type); Motl keeps them
     m = mk()
     before = _frame_sig(m.df)
     shared = None       # the caller-owned ndarray handed to every call that takes its offset as ndarray
@@ -1211,6 +1241,8 @@ def run_impl(case):
             arg = tuple(int(v) for v in svals)
         elif sform == "intarray":
             arg = np.array([int(v) for v in svals], dtype=np.int64)
+        elif sform == "f32array":
+            arg = np.array(svals, dtype=np.float32)
         else:
             arg = tuple(svals)
         sym = _symmetry_arg(c["sym"])
@@ -1223,8 +1255,8 @@ def run_impl(case):
             rec = {"error": f"{type(e).__name__}: {str(e)[:300]}", "where": _where(e)}
         after_s = [f2b(float(x)) for x in arg]
         rec["s_intact"] = (after_s == c["s"]) and type(arg).__name__ == {"ndarray": "ndarray", "list": "list", "tuple": "tuple", "intlist": "list",
-                                                                         "inttuple": "tuple", "intarray": "ndarray"}[sform] \
-            and (sform != "intarray" or arg.dtype == np.int64) and (sform not in ("intlist", "inttuple") or all(type(x) is int for x in arg))
+                                                                         "inttuple": "tuple", "intarray": "ndarray", "f32array": "ndarray"}[sform] \
+            and (sform != "intarray" or arg.dtype == np.int64) and (sform != "f32array" or arg.dtype == np.float32) and (sform not in ("intlist", "inttuple") or all(type(x) is int for x in arg))
         sig = _frame_sig(m.df)
         rec["df_intact"] = sig == before
         if not rec["df_intact"]:
@@ -1253,11 +1285,12 @@ def _maxdev(case, obs, resps):
     """largest |impl - model| over orientation entries / complete positions (None when not comparable)"""
     try:
         dev = 0.0
-        for o, m in zip(_obs_calls(case, obs), resps):
+        for c, o, m in zip(_calls(case), _obs_calls(case, obs), resps):
             subs = m["subs"]
             out = o["rows"]
             if len(subs) != len(out):
                 return None
+            extra = _pos_extra(c)
             for u, r in zip(subs, out):
                 u, r = _f(u), _f(r)
                 M = _zxz(r[IX["phi"]], r[IX["theta"]], r[IX["psi"]])
@@ -1266,7 +1299,9 @@ def _maxdev(case, obs, resps):
                 if not (_orient_tol(W) > TOL and dm <= _orient_tol(W)):     # inside scipy's gimbal zone the Euler triple itself is off by <= 2 sin(theta)
                     dev = max(dev, dm)
                 for a, b in (("x", "shift_x"), ("y", "shift_y"), ("z", "shift_z")):
-                    dev = max(dev, abs((r[IX[a]] + r[IX[b]]) - (u[IX[a]] + u[IX[b]])))
+                    dp = abs((r[IX[a]] + r[IX[b]]) - (u[IX[a]] + u[IX[b]]))
+                    if not (extra > 0.0 and dp <= extra):      # a float32 offset is computed in float32 by numpy: judged against its own bound
+                        dev = max(dev, dp)
         return dev
     except Exception:
         return None
@@ -1291,7 +1326,7 @@ def _match(nrow, ok):
     return perm
 
 
-def _spec(parents, n, s, rows, sym_txt):
+def _spec(parents, n, s, rows, sym_txt, pos_extra=0.0):
     """THE STATEMENT, evaluated directly on the implementation's output — independent of the Lean model and of any intermediate
     result of the implementation; parents are identified by geom5, parents that share an id by a matching on the clauses"""
     N = len(parents)
@@ -1352,7 +1387,7 @@ def _spec(parents, n, s, rows, sym_txt):
             return dict(kind="spec", clause="orientation", detail=f"{sym_txt}: {who}: orientation differs from R*Rz(360*{k}/{n}) by {d:.3g}")
         wantp = centre + want @ s
         d = float(np.max(np.abs(wantp - gotp)))
-        if not d <= TOL * max(1.0, float(np.max(np.abs(wantp)))):
+        if not d <= TOL * max(1.0, float(np.max(np.abs(wantp)))) + pos_extra:
             return dict(kind="spec", clause="position", detail=f"{sym_txt}: {who}: complete position {gotp.tolist()} but centre + R*Rz(360*{k}/{n}) s = {wantp.tolist()}")
         bad = [f for f in OTHER if not (r[IX[f]] == P[IX[f]])]
         if bad:
@@ -1404,11 +1439,12 @@ def _judge_call(case, ci, c, o, m):
             return [dict(kind="corr", clause="harness-or-library-raised", detail=f"{tag}{o['error']} (no frame inside cryocat/)")]
         return [dict(kind="spec", clause="raises", detail=f"{tag}split_in_asymmetric_subunits({sym_txt}, s) raised {o['error']} @{o.get('where','')}")]
     out = []
-    # G2: caller-owned inputs
+    # G2: caller-owned inputs — the statement is silent about them, so a change is reported as `corr` (a disagreement with the documented, model
+    # behaviour "inputs are read only"), never as a violation of the statement
     if not o.get("s_intact", True):
-        out.append(dict(kind="spec", clause="input-mutated", detail=f"{tag}{sym_txt}: the offset object handed in by the caller was changed by the call"))
+        out.append(dict(kind="corr", clause="input-mutated", detail=f"{tag}{sym_txt}: the offset object handed in by the caller was changed by the call"))
     if not o.get("df_intact", True):
-        out.append(dict(kind="spec", clause="input-mutated", detail=f"{tag}{sym_txt}: the particle list the method was called on was changed by the call ({o.get('df_change')})"))
+        out.append(dict(kind="corr", clause="input-mutated", detail=f"{tag}{sym_txt}: the particle list the method was called on was changed by the call ({o.get('df_change')})"))
     if out:
         return out
     parents = [_f(r) for r in case["rows"]]
@@ -1417,10 +1453,11 @@ def _judge_call(case, ci, c, o, m):
         return [dict(kind="spec", clause="columns", detail=f"{tag}columns {o['cols']}")]
     if o.get("nonnumeric"):
         # G3: a numeric field that comes back as text / object
-        return [dict(kind="spec", clause="dtype", detail=f"{tag}{sym_txt}: fields {o['nonnumeric']} returned with non-numeric dtype "
+        return [dict(kind="corr", clause="dtype", detail=f"{tag}{sym_txt}: fields {o['nonnumeric']} returned with non-numeric dtype "
                      f"{[d for c_, d in zip(o['cols'], o['dtypes']) if c_ in o['nonnumeric']]} (first row {o.get('sample')})")]
     rows = [_f(r) for r in o["rows"]]
-    sp = _spec(parents, n, s, rows, sym_txt)
+    extra = _pos_extra(c)
+    sp = _spec(parents, n, s, rows, sym_txt, extra)
     if sp:
         return [dict(f, detail=tag + f["detail"]) for f in sp]
     # ---- correspondence with the Lean model (CryoCat.C10.expandSym at Float) — everything below is kind corr ----------
@@ -1447,9 +1484,9 @@ def _judge_call(case, ci, c, o, m):
             return [dict(kind="corr", clause="orientation-vs-model", detail=f"{tag}output {i} (sorted parent {i // n}, subunit {i % n + 1}): differs by {d:.3g}")]
         for a, b in (("x", "shift_x"), ("y", "shift_y"), ("z", "shift_z")):
             pu, pr = u[IX[a]] + u[IX[b]], r[IX[a]] + r[IX[b]]
-            if not abs(pu - pr) <= TOL * max(1.0, abs(pu)):
+            if not abs(pu - pr) <= TOL * max(1.0, abs(pu)) + extra:
                 return [dict(kind="corr", clause="position-vs-model", detail=f"{tag}output {i} (sorted parent {i // n}, subunit {i % n + 1}): {a}+{b} impl {pr!r} model {pu!r}")]
-            near_tie = (not exact_offset) and abs(abs(u[IX[b]]) - 0.5) < TIE_MARGIN
+            near_tie = (not exact_offset) and abs(abs(u[IX[b]]) - 0.5) < max(TIE_MARGIN, 2.0 * extra)
             if not near_tie and u[IX[a]] != r[IX[a]]:
                 return [dict(kind="corr", clause="rounding-vs-model", detail=f"{tag}output {i}: {a} impl {r[IX[a]]!r} model {u[IX[a]]!r} (pre-rounding value {pu!r}; model rounds the exact value half away from zero)")]
     if not o.get("index_ok", True) or o.get("type") != "Motl":
@@ -1497,6 +1534,7 @@ def stats(case, obs, resps):
          "same_n_repeated_in_session": "yes" if len({c["sym"]["n"] for c in calls}) < len(calls) else "no",
          "parent_ids": "repeated" if len(set(ids)) < len(ids) else "unique", "idkind": case.get("idkind", "corpus"),
          "integer_typed_columns": case.get("intkind", "none" if not case.get("intcols") else "corpus"),
+         "receiver_class": case.get("receiver", "Motl"),
          "row_labels": case.get("labelkind", "default RangeIndex" if case.get("labels") is None else "corpus"),
          "impl": ["raised" if "error" in o else "returned" for o in oc],
          "returned_dtypes": sorted({o.get("kinds", "?") for o in oc if "error" not in o})}
@@ -1531,7 +1569,7 @@ def stats(case, obs, resps):
 def sample_view(case):
     calls = _calls(case)
     return dict(calls=[dict(symmetry=repr(_symmetry_arg(c["sym"])), s=_f(c["s"]), offset_passed_as=c.get("sform", "ndarray")) for c in calls],
-                integer_typed_columns=case.get("intcols"), row_labels=(case.get("labels") or [])[:12] or None,
+                receiver_class=case.get("receiver", "Motl"), integer_typed_columns=case.get("intcols"), row_labels=(case.get("labels") or [])[:12] or None,
                 n_parents=len(case["rows"]), parent_ids=[b2f(r[IX["subtomo_id"]]) for r in case["rows"]][:12],
                 first_parent=dict(zip(FIELDS, _f(case["rows"][0]))))
 
@@ -1570,6 +1608,19 @@ def probes(rng):
     out.append(dict(name="scipy as_euler('zxz') o from_euler reproduces the rotation (incl. gimbal lock)", ok=worst_rt <= 1e-9, detail=f"max dev {worst_rt:.3g}"))
     out.append(dict(name="scipy as_euler('zxz') with 0 < |sin theta| <= 1e-7: the returned triple is within 1e-9 + 2 sin(theta) of the rotation", ok=worst_zone <= 1.0,
                     detail=f"{nzone} triples inside the zone, worst deviation / bound = {worst_zone:.3g}"))
+    # float32 offsets: numpy's float32 polar form against the float64 one, relative to the bound 5 eps32 rho of _pos_extra
+    worst32 = 0.0
+    for i in range(400):
+        s = np.array([rng.uniform(-60, 60) if i % 3 else rng.uniform(-2000, 2000) for _ in range(3)], dtype=np.float32)
+        phi = np.deg2rad(360.0 * rng.randint(0, 63) / rng.randint(1, 64))
+        r32, t32 = np.sqrt(s[0] ** 2 + s[1] ** 2), np.arctan2(s[1], s[0])
+        a = np.full((1,), r32) * np.cos(np.full((1,), t32) + phi), np.full((1,), r32) * np.sin(np.full((1,), t32) + phi)
+        s64 = s.astype(np.float64)
+        r64, t64 = np.sqrt(s64[0] ** 2 + s64[1] ** 2), np.arctan2(s64[1], s64[0])
+        d = max(abs(float(a[0][0]) - r64 * math.cos(t64 + phi)), abs(float(a[1][0]) - r64 * math.sin(t64 + phi)))
+        worst32 = max(worst32, d / (5.0 * EPS32 * max(float(r64), 1e-300)))
+    out.append(dict(name="numpy float32 polar form (sqrt, arctan2 in float32) is within 5 eps32 rho of the float64 one", ok=worst32 <= 1.0,
+                    detail=f"400 float32 offsets, worst deviation / bound = {worst32:.3g}"))
     xs = [0.5, -0.5, 1.5, -1.5, 2.5, -2.5, HALF_BELOW, -HALF_BELOW, 0.5000000000000001, -0.5000000000000001, 1.4999999999999998, 4503599627370495.5,
           -4503599627370495.5, 9007199254740993.0, 0.0, -0.0, 1e-320, 123456.5, -123456.5] + [rng.uniform(-3000, 3000) for _ in range(40)] + [_dy(rng, -50, 50) for _ in range(40)]
     try:
@@ -1589,12 +1640,14 @@ LEVEL_TEXT = ("Lean 4 theorems about an executable model of Motl.split_in_asymme
               "orientation R*Rz(k*a), complete position = centre + orientation*s (so every subunit maps back to the centre), subunits related by rotations "
               "about the parent's own z axis (conjugates R*Rz*R^T fixing R e_z), closure Rz(a)^n=1, integer x,y,z and |shift|<=1/2 for any rounding to a nearest integer; "
               "over the reals the step angle is 2*pi/n; the code's own arithmetic for the offset (polar form: sqrt, arctan2, cos/sin of the+deg2rad(k*360/n)) is modelled (`expandP`, "
-              "what the driver runs) and proved equal to the Cartesian rotation, abstractly and over R with arctan2 = Complex.arg; the symmetry string is parsed in Lean (last run of "
+              "what the driver runs) and proved equal to the Cartesian rotation over R with arctan2 = Complex.arg (abstractly: under the polar / angle-addition identities that hold for the real functions); the symmetry string is parsed in Lean (last run of "
               "digits; 'C'+str(n), blanks, zero padding proved to give n) and int() of a numeric argument is modelled as truncation toward zero of its exact value; "
               "the model is tied to the source by regenerated constants/field names/expression shapes, a whole-body dump with alpha-renamed locals, and by a differential run of "
               "the real function against the model on generated lists (every n in 1..64 in EVERY tier)")
 LEVEL_NOTE = ("trusted/modelled: Lean kernel; translator anchors; scipy Rotation (from_euler/as_euler/*/apply) and numpy trigonometry/polar form "
               "(probed and compared with tolerance 1e-9, not proved); Decimal ROUND_HALF_UP on a float = exact rational rounding (probed each run); pandas iloc/argsort/repeat/tile "
-              "positional semantics (compared on every case); Python's \\d / int() on non-ASCII digits is outside the model")
+              "positional semantics (compared on every case); Python's \\d / int() on non-ASCII digits is outside the model; the equality polar form = Cartesian rotation "
+              "(`centerShift_eq`, `expandP_eq`) is proved UNDER the identities `PolarExact` — polar coordinates, angle addition — which hold for the real sqrt / arg / cos / sin "
+              "(`realPolar_exact`): its substance is the statement over the reals, the abstract version only factors the algebra; a float32 offset is judged with float32 precision")
 TECHNIQUE = "Lean 4 proof (ring identities over any commutative ring, list induction, stable merge sort, rational rounding, real trigonometry for the step angle and the polar form (Complex.arg), digit-string parsing, truncation toward zero) + regenerated anchors + differential correspondence"
 DESIGN_REF = "DESIGN.md section 4, C10"
